@@ -9,7 +9,9 @@ import (
 // token sequences, token/byte/structure mutants of corpus and grammar statements, nesting bombs.
 
 var smallAlphabet = []string{"SELECT", "1", "a", "(", ")", ",", "FROM", "AS", "INTERSECT", "EXCEPT", "UNION", "ALL", "*", "REPLACE", "-", "NOT", ".", "IN",
-	"[", "]", "GROUP", "BY", "GROUPING", "SETS", "WITH", "CASE", "WHEN", "END", "CAST", "::", "'s'", ";", "=", "AND", "BETWEEN", "INTERVAL", "TRIM", "ORDER", "LIMIT", "->"}
+	"[", "]", "GROUP", "BY", "GROUPING", "SETS", "WITH", "CASE", "WHEN", "END", "CAST", "::", "'s'", ";", "=", "AND", "BETWEEN", "INTERVAL", "TRIM", "ORDER", "LIMIT", "->",
+	// number tokens of every lexical form (a NUMBER that starts with a dot directly after a name is a tuple access)
+	".1e5", ".5", ".99999999999999999999", "1e5", "0x1F", "1.", "1e+", "{p:UInt8}"}
 
 var stmtPrefixes = []string{"", "SELECT", "SELECT 1", "SELECT a FROM t", "SELECT * ", "SELECT 1 INTERSECT SELECT 2", "CREATE TABLE t", "ALTER TABLE t", "INSERT INTO t", "WITH",
 	"SELECT f(", "SELECT substring(", "CREATE DICTIONARY d (k UInt64) PRIMARY KEY k", "SELECT 1 GROUP BY", "EXPLAIN", "SHOW", "SYSTEM", "GRANT", "RENAME", "EXCHANGE",
